@@ -293,6 +293,9 @@ structure Script where
     -- `some k`: the file system accepts `k` bytes in the temp file and refuses the next one (ENOSPC,
     -- EFBIG, EDQUOT …): a write crossing byte `k` is cut short there and the following `write` is an error
   syncOk : Bool := true -- `sync_all` succeeds (`false`: fsync reports EIO / ENOSPC / EINVAL …)
+  createOk : Bool := true
+    -- `File::create(temp)` succeeds (`false`: the destination's parent directory is missing, not
+    -- writable, … — `TempFile::create(..)?` is the first statement that touches the file system)
   deriving DecidableEq, Repr
 
 /-- `check_output`: the `.beve.zst` output needs a zstd stream, the `.beve` output a zstd BEVE stream;
@@ -302,6 +305,9 @@ def tagsOk (p : Puller) (s : Script) : Bool :=
   | .beveZst => s.comp == .zstd
   | .beve => s.comp == .zstd && s.beve
   | _ => true
+
+/-- Everything that must hold before the first write: compatible tags and a creatable temp file. -/
+def preOk (p : Puller) (s : Script) : Bool := tagsOk p s && s.createOk
 
 def pulled (p : Puller) (s : Script) : Pulled :=
   if p.isAsync then asyncPull s.wire
@@ -352,13 +358,13 @@ def envOf (p : Puller) (s : Script) (codec : Codec) : Env :=
 /-- A pull-to-file call: nothing touches the filesystem unless `open` succeeded and the output is
 compatible with the stream's tags. -/
 def run (f : StepFacts) (p : Puller) (s : Script) (codec : Codec) : Run :=
-  if s.openOk && tagsOk p s then interp (envOf p s codec) false (f.of p) else ⟨[], .err⟩
+  if s.openOk && preOk p s then interp (envOf p s codec) false (f.of p) else ⟨[], .err⟩
 
 /-- Specification: the content a pull must publish — `none` for every failing script (open failed,
 incompatible tags, no `last` chunk reached, undecodable stream, stream shorter than the trailer,
 verification rejected, rename refused, a write or the fsync refused by the file system). -/
 def expected (p : Puller) (s : Script) (codec : Codec) : Option Bytes :=
-  if s.openOk && tagsOk p s && (!p.verifies || s.verifyOk) && s.renameOk && s.syncOk then
+  if s.openOk && preOk p s && (!p.verifies || s.verifyOk) && s.renameOk && s.syncOk then
     match payloadN (if p.usesWriteFile then s.stop else none) s.wire with
     | none => none
     | some wb =>
@@ -373,6 +379,44 @@ def expected (p : Puller) (s : Script) (codec : Codec) : Option Bytes :=
 /-- Deterministic filler bytes for large bodies on the line protocol (`g<seed>.<len>`). -/
 def genBytes (seed len : Nat) : Bytes :=
   (List.range len).map fun i => UInt8.ofNat ((i / 61) * 37 + seed + i % 7)
+
+/-! ### which paths a pull touches: `temp_sibling` -/
+
+/-- A destination as `Path::with_file_name` sees it: the parent directory and the final component
+(as characters: only concatenation and equality matter). -/
+structure FPath where
+  dir : List String
+  name : List Char
+  deriving DecidableEq, Repr
+
+/-- `temp_sibling`: `name.push(suffix); final_path.with_file_name(name)` — the suffix is *appended* to the
+whole file name (extension included), in the same directory. -/
+def tempSibling (suffix : List Char) (p : FPath) : FPath := ⟨p.dir, p.name ++ suffix⟩
+
+/-- A file system over all paths. -/
+abbrev World := FPath → Option Bytes
+
+def World.set (w : World) (p : FPath) (v : Option Bytes) : World := fun q => if q = p then v else w q
+
+/-- The two-path view of a world for a pull to `d`. -/
+def World.view (w : World) (suffix : List Char) (d : FPath) : FS := ⟨w d, w (tempSibling suffix d)⟩
+
+/-- One operation of a pull to `d`, on the whole world. -/
+def Op.applyAt (suffix : List Char) (d : FPath) (w : World) : Op → World
+  | .create => w.set (tempSibling suffix d) (some [])
+  | .write bs => w.set (tempSibling suffix d) ((w (tempSibling suffix d)).map (· ++ bs))
+  | .flush => w
+  | .sync => w
+  | .close => w
+  | .renameFail => w
+  | .rename =>
+    match w (tempSibling suffix d) with
+    | some c => (w.set d (some c)).set (tempSibling suffix d) none
+    | none => w
+  | .remove => w.set (tempSibling suffix d) none
+
+def runOpsAt (suffix : List Char) (d : FPath) (w : World) (ops : List Op) : World :=
+  ops.foldl (Op.applyAt suffix d) w
 
 /-! ### value-decoding pulls -/
 
